@@ -119,6 +119,18 @@ impl Subscriber {
     }
 
     pub fn notify(&self, key: ConfigKey) {
+        #[cfg(nacos_group_r_nacos_verif)]
+        if let Some(set) = self.listener.get(&key) {
+            let mut clients: Vec<String> = set.iter().map(|c| c.to_string()).collect();
+            clients.sort();
+            crate::verif_hooks::record(format!(
+                "notify-config {}/{}/{} {}",
+                key.data_id,
+                key.group,
+                key.tenant,
+                clients.join(",")
+            ));
+        }
         if let Some(conn_manage) = &self.conn_manage {
             if let Some(set) = self.listener.get(&key) {
                 conn_manage.do_send(BiStreamManageCmd::NotifyConfig(key, set.clone()));
@@ -148,5 +160,36 @@ impl Subscriber {
             sum += item.len();
         }
         sum
+    }
+}
+
+#[cfg(nacos_group_r_nacos_verif)]
+impl Subscriber {
+    /// both maps, canonically ordered (verification hook)
+    pub fn verif_dump(&self) -> String {
+        let mut by_key: Vec<String> = self
+            .listener
+            .iter()
+            .map(|(k, set)| {
+                let mut c: Vec<String> = set.iter().map(|x| x.to_string()).collect();
+                c.sort();
+                format!("{}/{}/{}={}", k.data_id, k.group, k.tenant, c.join("+"))
+            })
+            .collect();
+        by_key.sort();
+        let mut by_client: Vec<String> = self
+            .client_keys
+            .iter()
+            .map(|(c, set)| {
+                let mut k: Vec<String> = set
+                    .iter()
+                    .map(|k| format!("{}/{}/{}", k.data_id, k.group, k.tenant))
+                    .collect();
+                k.sort();
+                format!("{}={}", c, k.join("+"))
+            })
+            .collect();
+        by_client.sort();
+        format!("subByKey={} subByClient={}", by_key.join(","), by_client.join(","))
     }
 }
